@@ -37,57 +37,25 @@ ALLOWED_PERSISTENT = {
 
 
 def implies_guard(facts, xs: str) -> bool:
-    """Do the branch facts imply  (not S) or M  where S = 'a selector is set', M = 'selector.match(xs)'?"""
-    clauses = []
-    for text, pol, expr in facts:
-        f = to_formula(expr, xs)
-        if f is None:
+    """Do the branch facts imply  (not S) or M  where S = 'a selector is set', M = 'selector.match(xs)'?  Decided as a
+    propositional implication over the atoms of the facts (truth table), after mapping the equivalent spellings of S and M."""
+    from ..logic import implies, parse
+
+    def canon(text):
+        return (text.replace("self.selector is not None", "self.selector").replace("self.selector is None", "(not self.selector)")
+                .replace(f"{xs} in self.selector", f"self.selector.match({xs})"))
+
+    prem = []
+    for text, pol, _e in facts:
+        if "self.selector" not in text:
             continue
-        clauses.append((f, pol))
-    if not clauses:
+        try:
+            prem.append((parse(canon(text)), pol))
+        except SyntaxError:
+            continue
+    if not any(f"self.selector.match({xs})" in canon(t) for t, _, _ in facts):
         return False
-    for S, M in itertools.product((False, True), repeat=2):
-        if all(evalf(f, S, M) == pol for f, pol in clauses):
-            if not ((not S) or M):
-                return False
-    # at least one clause must mention M, otherwise the facts only talk about S
-    return any(mentions_m(f) for f, _ in clauses)
-
-
-def to_formula(e, xs):
-    if isinstance(e, ast.BoolOp):
-        subs = [to_formula(v, xs) for v in e.values]
-        if any(s is None for s in subs):
-            return None
-        return ("and" if isinstance(e.op, ast.And) else "or", subs)
-    if isinstance(e, ast.UnaryOp) and isinstance(e.op, ast.Not):
-        s = to_formula(e.operand, xs)
-        return None if s is None else ("not", [s])
-    t = norm(e)
-    if t == "self.selector" or t == "self.selector is not None":
-        return ("S", [])
-    if t == "self.selector is None":
-        return ("not", [("S", [])])
-    if t in (f"self.selector.match({xs})", f"{xs} in self.selector"):
-        return ("M", [])
-    return None
-
-
-def evalf(f, S, M):
-    k, subs = f
-    if k == "S":
-        return S
-    if k == "M":
-        return M
-    if k == "not":
-        return not evalf(subs[0], S, M)
-    if k == "and":
-        return all(evalf(s, S, M) for s in subs)
-    return any(evalf(s, S, M) for s in subs)
-
-
-def mentions_m(f):
-    return f[0] == "M" or any(mentions_m(s) for s in f[1])
+    return implies(prem, parse(f"not self.selector or self.selector.match({xs})"))
 
 
 def facts_with_exprs(cfg: CFG, node_id: int):
@@ -237,8 +205,13 @@ def run(ctx):
                 ns_stores.append(n)
             if isinstance(n, ast.Attribute) and isinstance(n.ctx, ast.Store) and dotted(n) == "self.ns":
                 ns_stores.append(n)
-    copies = [c for c in calls_in(cm) if isinstance(c.func, ast.Attribute) and c.func.attr == "copy" and dotted(c.func.value) == "self.ns"] + \
-        [c for c in calls_in(cm) if call_name(c) == "dict" and c.args and dotted(c.args[0]) == "self.ns"]
+    from ..core import dict_bindings
+
+    evs = [c for c in calls_in(cm) if call_name(c) == "eval" and len(c.args) > 1]
+    copies = False
+    if evs:
+        bases, _binds, copied = dict_bindings(cm, evs[0].args[1])
+        copies = copied and any(dotted(b) == "self.ns" for b in bases)
     ctx.check(not ns_stores and bool(copies), "R10.2", "CompiledSelector.match:namespace-copy", "the compiled engine updates its shared namespace in place", cm,
               "ns = self.ns.copy() per match; self.ns never written outside __init__")
 
@@ -300,38 +273,57 @@ def run(ctx):
     p_sel, p_force = func_params(ms)[0], func_params(ms)[1]
     mscfg = CFG(ms)
     rets = [n for n in walk_no_nested(ms) if isinstance(n, ast.Return)]
-    retvar = norm(rets[0].value) if len(rets) == 1 and rets[0].value is not None else None
-    ctx.check(retvar is not None and len(rets) == 1, "R10.4", "make_selector:single-return", "make_selector has several exits / no result variable", ms, f"returns {retvar}")
-    n_assign = 0
-    for n in mscfg.stmt_nodes():
-        if isinstance(n.ast, ast.Assign) and any(norm(t) == retvar for t in n.ast.targets):
-            n_assign += 1
-            v = n.ast.value
-            facts = {(t, p) for t, p, _ in mscfg.facts_at(n.id)}
-            under = {t for t, p in facts if p and t.startswith("isinstance(")}
-            construct = f"make_selector:{retvar} = {norm(v)[:50]}"
-            if norm(v) == p_sel or (isinstance(v, ast.Constant) and v.value is None):
-                if isinstance(v, ast.Constant):
-                    ctx.check((f"not {p_sel}", True) in facts or (p_sel, False) in facts, "R10.4", construct, "None is returned for a non-empty selector", n.ast, "None only for a falsy selector")
-                else:
-                    ctx.ok("R10.4", construct, "pass-through", n.ast)
-                continue
-            # a constructor call: which engine, from what
-            ctors = [c for c in ast.walk(v) if isinstance(c, ast.Call) and isinstance(prog.resolve_expr(sel, c.func), DefRef)
+    # result sites: assignments to the single returned variable, or the return statements themselves
+    retvar = norm(rets[0].value) if len(rets) == 1 and isinstance(rets[0].value, ast.Name) and rets[0].value.id != p_sel else None
+    sites = []
+    if retvar is not None:
+        for n in mscfg.stmt_nodes():
+            if isinstance(n.ast, ast.Assign) and any(norm(t) == retvar for t in n.ast.targets):
+                sites.append((n, n.ast.value))
+    else:
+        for n in mscfg.stmt_nodes():
+            if isinstance(n.ast, ast.Return):
+                sites.append((n, n.ast.value if n.ast.value is not None else ast.Constant(value=None)))
+    ctx.floor("R10.4", "result sites of make_selector", len(sites), 3)
+    from ..logic import facts_as_premises, implies, parse
+
+    for n, v in sites:
+        raw = mscfg.facts_at(n.id)
+        facts = {(t, p) for t, p, _ in raw}
+        prem = facts_as_premises(raw)
+        under = {t for t, p in facts if p and t.startswith("isinstance(")}
+        construct = f"make_selector:result = {norm(v)[:50]}"
+        if norm(v) == p_sel:
+            ctx.ok("R10.4", construct, "pass-through", n.ast)
+            continue
+        if isinstance(v, ast.Constant) and v.value is None:
+            ctx.check(implies(prem, parse(f"not {p_sel}")), "R10.4", construct, "None is returned for a non-empty selector", n.ast, "None only for a falsy selector")
+            continue
+        # constructor calls: which engine, from what
+        ctor_list = [(c, prog.resolve_expr(sel, c.func).qualname.split(".")[-1]) for c in ast.walk(v) if isinstance(c, ast.Call) and isinstance(prog.resolve_expr(sel, c.func), DefRef)
                      and prog.resolve_expr(sel, c.func).qualname in ("flow.record.selector.Selector", "flow.record.selector.CompiledSelector")]
-            from_text = any("string_types" in t or ", str)" in t for t in under)
-            from_obj = [t for t in under if "Selector)" in t]
-            if from_text:
-                ok = isinstance(v, ast.IfExp) and norm(v.test) == p_force and "CompiledSelector" in norm(v.body) and norm(v.orelse).startswith("Selector(")
-                ctx.check(ok, "R10.4", construct, "text is not turned into Selector / CompiledSelector according to force_compiled", n.ast, "engine chosen by force_compiled")
-            elif from_obj:
-                forced = (p_force, True) in facts
-                to_compiled = all(prog.resolve_expr(sel, c.func).qualname.endswith("CompiledSelector") for c in ctors) and ctors
-                src_cls = "CompiledSelector" if any("CompiledSelector)" in t for t in from_obj) else "Selector"
-                ok = forced and to_compiled and src_cls == "Selector"
-                ctx.check(ok, "R10.4", construct, f"a {src_cls} object is rebuilt as {norm(v)[:40]}" + ("" if forced else " although force_compiled is not set") +
-                          ": the reader then filters with a different engine than the object the caller holds", n.ast, "Selector -> CompiledSelector only under force_compiled",
-                          key=f"R10.4:make_selector:engine-changed:{src_cls}")
-            else:
-                ctx.fail("R10.4", construct, "result assigned under an unrecognised condition", n.ast, key="R10.4:make_selector:unrecognised-branch")
-    ctx.floor("R10.4", "assignments to the result of make_selector", n_assign, 3)
+        from_text = any("string_types" in t or ", str)" in t for t in under)
+        from_obj = [t for t in under if "Selector)" in t]
+        if from_text:
+            # engine must follow force_compiled: CompiledSelector only if force_compiled holds, Selector only if it does not
+            ok = bool(ctor_list)
+            for c, eng in ctor_list:
+                cprem = list(prem)
+                par = getattr(c, "_parent", None)
+                if isinstance(par, ast.IfExp):
+                    cprem.append((par.test, par.body is c))
+                if eng == "CompiledSelector":
+                    ok &= implies(cprem, parse(p_force))
+                else:
+                    ok &= implies(cprem, parse(f"not {p_force}"))
+            ctx.check(ok, "R10.4", construct, "text is not turned into Selector / CompiledSelector according to force_compiled", n.ast, "engine chosen by force_compiled")
+        elif from_obj:
+            forced = implies(prem, parse(p_force))
+            to_compiled = bool(ctor_list) and all(eng == "CompiledSelector" for _, eng in ctor_list)
+            src_cls = "CompiledSelector" if any("CompiledSelector)" in t for t in from_obj) else "Selector"
+            ok = forced and to_compiled and src_cls == "Selector"
+            ctx.check(ok, "R10.4", construct, f"a {src_cls} object is rebuilt as {norm(v)[:40]}" + ("" if forced else " although force_compiled is not set") +
+                      ": the reader then filters with a different engine than the object the caller holds", n.ast, "Selector -> CompiledSelector only under force_compiled",
+                      key=f"R10.4:make_selector:engine-changed:{src_cls}")
+        else:
+            ctx.fail("R10.4", construct, "result produced under an unrecognised condition", n.ast, key="R10.4:make_selector:unrecognised-branch")
